@@ -421,6 +421,12 @@ def _run_classic(case, entry, klass, ctx):  # noqa: C901
     }
     if rng.random() < 0.7 and case.get("w") != "sign-provider-pss":
         cfg["rotk"] = pki.path(names[used], "priv", core.pick(rng, ["pem", "der"]))
+    elif keys[used]["type"] == "ecc" and rng.random() < 0.5:
+        # a plug-in style provider (HSM, signing server) that hands back DER encoded ECDSA signatures
+        from vf.props.mbi_gen import der_signature_provider
+
+        cfg["sign_provider"] = f"type={der_signature_provider()};file_path=" + pki.path(names[used], "priv", "pem")
+        ctx.count("dc_signed_through_der_provider")
     else:
         cfg["sign_provider"] = "type=file;file_path=" + pki.path(names[used], "priv", "pem")
     if legacy:
@@ -515,7 +521,19 @@ def _run_classic(case, entry, klass, ctx):  # noqa: C901
     recs = [r for r in log if r["pub"] == _pub_tuple(keys[used])]
     if len(log) != 1:
         ctx.note("signer_calls_per_credential", len(log))  # more than one call is tolerated, the stored signature decides
-    stored = [r for r in recs if r["sig"] == sigbytes]
+    def _as_stored(sig_):  # a provider may hand back DER; the credential stores r||s
+        if sig_[:1] == b"\x30" and len(sig_) != len(sigbytes):
+            try:
+                from vf.refs import ecdsa as _E
+
+                r_, s_ = _E.der_decode_sig(sig_)
+                half = len(sigbytes) // 2
+                return r_.to_bytes(half, "big") + s_.to_bytes(half, "big")
+            except Exception:  # pylint: disable=broad-except
+                return sig_
+        return sig_
+
+    stored = [r for r in recs if _as_stored(r["sig"]) == sigbytes]
     if not recs:
         _viol(ctx, "dc-msign-rot-key-never-signed", dict(witness, calls=len(log)))
     elif not stored:
